@@ -404,6 +404,7 @@ func linearForm(info *types.Info, e ast.Expr) (map[string]int, int64) {
 //     back to the loop head increments the counter (paths that leave the loop are not constrained);
 //   - in a plain for loop a character is kept by a write to the builder: inside one loop no write reaches a write (itself on
 //     the next iteration, or another) without an increment in between.
+//
 // The counter is the local integer compared with the limit parameter.
 func ruleTruncateCounts(c *Ctx, ix *PkgIndex, rule, short string) {
 	fn := c.Fn(ix, rule, "truncate")
